@@ -131,7 +131,7 @@ def schoolbook_by_interpretation(chk, v, f, negacyclic):
     names = [p["n"] for p in f.params]
     R, A, B, Nn = (sym.sym(n) for n in names[:4])
     effs = symexec.run_function(v, f, hooks=NOINLINE)[0]
-    for nv in range(1, 8):
+    for nv in range(1, 11):
         st = concrete.PolyState()
 
         def h(kind, x, env):
@@ -173,7 +173,7 @@ def check_schoolbook(chk, v, name, negacyclic):
         # not the accumulate-into-a-local shape (e.g. the loops interchanged, rows added into result): decide by interpretation
         bad = schoolbook_by_interpretation(chk, v, f, negacyclic)
         chk.require(bad is None, "R2", key, where=f.where,
-                    ok="interpreted for N = 1..7 over indeterminate operands: result[i] = sum of poly1[j]*poly2[k] over j+k = i%s" % (
+                    ok="interpreted for N = 1..10 over indeterminate operands: result[i] = sum of poly1[j]*poly2[k] over j+k = i%s" % (
                         " minus those over j+k = N+i" if negacyclic else ""), bad=bad or "", variant=v.name)
         chk.vcount(v.name, "R2.schoolbook_functions")
         return
